@@ -37,6 +37,8 @@ mod runner;
 mod signing_step;
 mod utils;
 mod verification_step;
+#[cfg(aquavm_verif)]
+pub mod verif_hooks;
 
 pub use air_interpreter_interface::InterpreterOutcome;
 pub use air_interpreter_interface::RunParameters;
